@@ -801,4 +801,54 @@ example : ∃ j, runJ { world := [(1, [(1, 11)]), (2, [])], retryMax := 2 }
      .offline 1001 [2], .write 1001 1 1 11 1, .stopRet true] = .ok j ∧ j.stopOk = true ∧ finalJ j = .ok () := ⟨_, rfl, rfl, rfl⟩
 example : (runJ {} [.msg 1001 1 1 1 0 0 0 [1], .enq 1001 true [(0, [1, 1])]]).toBool = false := by decide
 
+/-! ## completeness direction: the model's offline batch is accepted -/
+
+
+theorem nodup_count_le_one : ∀ l : List Nat, l.Nodup → ∀ u, l.count u ≤ 1
+  | [], _, u => by simp
+  | x :: xs, h, u => by
+    have hc := List.nodup_cons.mp h
+    have ih := nodup_count_le_one xs hc.2 u
+    by_cases hx : x = u
+    · subst hx; simp [List.count_cons, List.count_eq_zero.mpr hc.1]
+    · simp [List.count_cons, hx]; exact ih
+
+/-- Completeness of the judge's offline clauses for the recipient-resolution model: the offline
+    batch `planOffline [] ts` that `processPlan` computes for a DURABLE plan (any presence answers
+    `ts`) is accepted by the judge — none of `offline-report-for-transient`,
+    `offline-wrong-recipient`, `offline-duplicate` fires — provided the judge has recorded the
+    presence answers of the plan's resolved targets, those answers agree with the presence world
+    (a recipient without a route in its answer has no route in the world), and nothing was
+    reported offline for these recipients of the message before. -/
+theorem c31_offline_report_accepted (j : J) (m : Nat) (i : MsgInfo) (ts : List TargetAns)
+    (hm : lookup j.msgs m = some i) (hmode : i.mode = 1)
+    (hrec : ∀ t ∈ ts, ∀ rs, t.routes = some rs → ∀ u ∈ t.recips, (m, u) ∈ j.presOk)
+    (hworld : ∀ t ∈ ts, ∀ rs, t.routes = some rs → ∀ u ∈ t.recips, (∀ r ∈ rs, r.uid ≠ u) → (j.world.routes u).isEmpty = true)
+    (hfirst : ∀ u, j.offl.count (m, u) = 0) :
+    stepJ j (.offline m (planOffline [] ts)) =
+      .ok { j with offl := (planOffline [] ts).map (fun u => (m, u)) ++ j.offl } := by
+  obtain ⟨hnd, hmem, _, _⟩ := c31_cover_once ⟨0, 0, 0⟩ ts
+  simp only [stepJ, hm]
+  have h1 : (i.mode != 1) = false := by simp [hmode]
+  have h3 : ((planOffline [] ts).any fun u => decide (j.offl.count (m, u) + (planOffline [] ts).count u > j.presOk.count (m, u))) = false := by
+    rw [List.any_eq_false]
+    intro u hu
+    obtain ⟨t, ht, rs, hr, hur, _⟩ := (hmem u).mp hu
+    have a1 := List.count_pos_iff.mpr (hrec t ht rs hr u hur)
+    have a2 := nodup_count_le_one _ hnd u
+    have a3 := hfirst u
+    simp only [decide_eq_true_eq, Nat.not_lt, gt_iff_lt]
+    omega
+  simp [h1, h3]
+  intro u hu
+  obtain ⟨t, ht, rs, hr, hur, hno⟩ := (hmem u).mp hu
+  exact ⟨hrec t ht rs hr u hur, by simpa using hworld t ht rs hr u hur hno⟩
+
+def offlineExampleJ : J :=
+  { world := [(1, [(1, 11)]), (2, [])]
+    msgs := [(7, { ch := 1, seq := 1, mode := 1, frm := 0, snode := 0, ssess := 0 })]
+    presOk := [(7, 1), (7, 2)] }
+
+example : (stepJ offlineExampleJ (.offline 7 (planOffline [] [⟨[1, 2], some [⟨1, 1, 11⟩]⟩]))).toBool = true := by decide
+
 end WK.C31
